@@ -13,7 +13,7 @@ from ..sched import run_schedule
 ID = "C15"
 LEVEL = "exploration"
 RULE = ("Two and three threads encode documents from a pool of archetypes with different palettes and shapes "
-        "(coloured single tables, page_by table, group_by table, multi-section, figure) under a deterministic "
+        "(coloured single tables, page_by table, group_by table, multi-section, figure, tables with shared non-ASCII characters, with one heading wrapping differently, with converted LaTeX / shorthand text) under a deterministic "
         "baton scheduler driven by sys.settrace call events inside rtflite. Exhaustive: every schedule with ONE "
         "preemption at every library call boundary for six document pairs and at every third boundary for nine more "
         "pairs incl. a document with itself (thorough: every boundary of all 81 ordered pairs, plus line-level preemption inside color_service.py / registry.py); COLD schedules: for four pairs every schedule that preempts at a call only a "
@@ -111,12 +111,19 @@ ARCH = [
                                    {"name": "@N1", "dtype": "str", "values": [f"t{i}" for i in range(11)]},
                                    {"name": "@N2", "dtype": "str", "values": [f"u{i}" for i in range(11)]}]},
                    "body": {"page_by": ["@N0"]}, "headers": [{"text": ["@H0.0", "@H0.1"]}]}]},
+    # 17 / 18: converted text (LaTeX commands, ^ _ >= <= shorthands, page fields) in cells, titles and footnotes: conversion state
+    {"kind": "table", "sections": [{"df": {"cols": [{"name": "@N0", "dtype": "str", "values": ["\\alpha >= 5", "x^2 + y_i", "\\beta\\gamma"]},
+                                                    {"name": "@N1", "dtype": "str", "values": ["<= \\mu", "\\pm 2", "a_b^c"]}]}, "body": {}, "headers": "default"}],
+     "title": {"text": ["@T0 \\Delta_1"]}, "footnote": {"text": ["@F0 \\leq \\infty"]}},
+    {"kind": "table", "sections": [{"df": {"cols": [{"name": "@N0", "dtype": "str", "values": ["\\sigma^2", "n >= 30", "\\chi_k"]}]}, "body": {},
+                                    "headers": [{"text": ["@H0.0 \\theta"]}]}],
+     "title": {"text": ["@T0 \\omega", "@T1 x_1"]}, "page_footer": {"text": ["@Q0 \\pagenumber of \\pagefield"]}},
 ]
 SHARED = {(9, 10): "footnote", (10, 9): "footnote"}
 COLD_PAIRS = [(13, 14), (14, 13), (0, 1), (4, 7)]      # schedules run in a fresh interpreter each (nothing encoded before)
 QUICK_FULL = [(0, 1), (1, 0), (0, 2), (2, 0), (3, 0), (0, 3)]                      # quick: every call boundary
 QUICK_STRIDE = [(2, 4), (4, 2), (5, 6), (6, 5), (4, 7), (7, 4), (7, 7), (2, 8), (8, 2), (9, 10), (10, 9), (11, 12), (12, 11), (13, 14), (14, 13),
-                (15, 16), (16, 15)]   # quick: every 3rd call boundary (thorough: every one)
+                (15, 16), (16, 15), (17, 18), (18, 17), (17, 0)]   # quick: every 3rd call boundary (thorough: every one)
 WIDE_STRIDE = {(15, 16): 6, (16, 15): 6, (13, 14): 4, (14, 13): 4}      # the larger documents: every 6th / 4th boundary in quick
 QUICK_PAIRS = QUICK_FULL + QUICK_STRIDE
 
